@@ -20,6 +20,7 @@ META = {
 }
 META["explanation"] += " " + "(ZB-past, shared with C01/C17) no raw access to the stream's buffer in the formatter is provably at or beyond Length(), or in front of started_at, on some path."
 META["explanation"] += " " + "(PR-point) in formatStringNumberFixed / formatStringNumberDefault every loop that skips zero digits while the decimal-point position is in scope is bounded by that position, and the count of zeros written back after a carry is not taken from the caller's estimated digit count."
+META["explanation"] += " " + '(LOSS-sticky) abstract paths through realToString: every shift or division that drops bits or digits of the big integer is followed, on every path to a formatter, by an assignment of the round-up flag (shifts by the trailing-zero count or by a literally-zero amount are lossless). (ROUND-lower) the flag handed to roundStringNumber includes a scan of the digits below the rounding position. (SHIFT-width, shared with C19) every shift of a BigInt word is by less than the word width.'
 
 
 def run(ctx):
@@ -226,6 +227,13 @@ def run(ctx):
     from rules.common import rule_stream_past
     rules.append(rule_stream_past(ctx, m))
     rules.append(rule_point_bound(ctx, m))
+    rules.append(rule_loss_sticky(ctx, m))
+    rules.append(rule_round_lower(ctx, m))
+    # the digit generator multiplies and shifts a BigInt: a shift by the full word width is undefined there too
+    from rules.C19 import rule_shift_width
+    from qlib.zone import ContractTable, Contract
+    _t = {f_.q + "/%d" % len(f_.params): Contract(buffers={"f:storage_": "g:this|MaxIndex()+1"}, invariants=[("f:index_", "g:this|MaxIndex()", 0)]) for f_ in m.functions if f_.cls == "Qentem::BigInt" and not f_.inst and f_.cfg}
+    rules.append(rule_shift_width(ctx, m, ContractTable(_t)))
     return rules
 
 
@@ -314,4 +322,165 @@ def rule_point_bound(ctx, m):
                  "their count is computed from the point position and the lengths of the digit string" if bad is None else
                  "`%s` takes the count from the caller's ESTIMATE of the number of integer digits, which is one short just above a power of ten (119.95 at one decimal prints as 1200)" % f.text(bad)[:60],
                  f.loc(bad) if bad is not None else f.loc(w))
+    return r
+
+
+
+def rule_loss_sticky(ctx, m):
+    """LOSS-sticky: realToString turns the binary value into a decimal digit string of limited length by shifting the big
+    integer right and dividing it; whatever such an operation drops has to reach the rounding step through the flag it passes on
+    (`round_up`: "the value is above what the digits show"), otherwise a dropped 0.007 turns 25.007 into an exact tie that is
+    rounded to even.  Abstract paths through realToString (state: a lossy operation was executed; the flag was assigned; which
+    shift-amount locals are still the literal zero they were initialised with): at every call of a formatter a path that executed a
+    lossy operation has assigned the flag.  Lossless by construction and exempt: a shift by the trailing-zero count
+    (the amount is the result of FindFirstBit) and a shift whose amount is still literally zero on that path."""
+    from qlib import dataflow
+    r = Rule("LOSS-sticky", "every path of realToString that shifts or divides digits away has assigned the round-up flag before it formats", floor=2)
+    fs = [f for f in m.functions if not f.inst and f.cfg and f.q == "Qentem::Digit::realToString"]
+    if not fs:
+        r.broke("Digit::realToString not found")
+        return r
+    f = fs[0]
+    ctx.note_fn(f)
+    blocks = f.blocks()
+    flag = [d for x in astq.nodes_of(f, "DeclStmt") for d in f.nodes[x]["decls"] if d.get("tk") == "bool" and d.get("n") == "round_up"]
+    if not flag:
+        flag = [d for x in astq.nodes_of(f, "DeclStmt") for d in f.nodes[x]["decls"] if d.get("tk") == "bool" and "round" in (d.get("n") or "")]
+    if len(flag) != 1:
+        r.broke("realToString: the round-up flag local was not identified")
+        return r
+    fd = flag[0]["d"]
+    # trailing-zero count locals: initialised from FindFirstBit
+    tz = set(d["d"] for x in astq.nodes_of(f, "DeclStmt") for d in f.nodes[x]["decls"] if "d" in d and d.get("init", -1) >= 0 and
+             any(f.call_simple_name(c) == "FindFirstBit" for c in astq.calls(f, None, d["init"])))
+    big = set(d["d"] for x in astq.nodes_of(f, "DeclStmt") for d in f.nodes[x]["decls"] if "d" in d and "BigInt" in (d.get("t") or ""))
+    zero_init = set(d["d"] for x in astq.nodes_of(f, "DeclStmt") for d in f.nodes[x]["decls"] if "d" in d and d.get("init", -1) >= 0 and f.const_value(d["init"]) == 0
+                    and d.get("tk") in ("uint", "sint"))
+
+    def lossy(x, zeros):
+        """description if the element drops digits/bits of the big integer"""
+        n = f.nodes[x]
+        if n["k"] in ("CompoundAssignOperator", "CXXOperatorCallExpr", "BinaryOperator") and n.get("op") in (">>=", "/="):
+            lhs = n["ch"][0] if n["k"] != "CXXOperatorCallExpr" else f.call_args(x)[0]
+            rhs = n["ch"][1] if n["k"] != "CXXOperatorCallExpr" else f.call_args(x)[1]
+            if f.nodes[f.strip(lhs)].get("d") in big:
+                rn = f.nodes[f.strip_casts(rhs)]
+                if rn["k"] == "DeclRefExpr" and (rn.get("d") in tz or rn.get("d") in zeros):
+                    return None
+                return f.text(x)[:50]
+        if n["k"] in ("CallExpr", "CXXMemberCallExpr") and (f.call_simple_name(x) or "") in ("bigIntDropDigits", "Divide") and any(f.nodes[y].get("d") in big for y in f.walk(x)):
+            return f.text(x)[:50]
+        return None
+    sinks = [c for c in astq.calls(f) if (f.call_simple_name(c) or "").startswith("formatStringNumber")]
+    if not sinks:
+        r.broke("realToString: no call of a formatter found")
+        return r
+    sink_set = set(sinks)
+    entry = f.cfg["entry"]
+    seen = set()
+    work = [(entry, None, False, frozenset())]
+    bad = {}
+    reached = set()
+    steps = 0
+    while work and steps < 200000:
+        steps += 1
+        bid, lost, sticky, zeros = work.pop()
+        key = (bid, lost is not None, sticky, zeros)
+        if key in seen:
+            continue
+        seen.add(key)
+        zs = set(zeros)
+        for e in blocks[bid]["el"]:
+            x = e.get("n")
+            if not isinstance(x, int) or e.get("k"):
+                continue
+            n = f.nodes[x]
+            if n["k"] == "DeclStmt":
+                for d in n["decls"]:
+                    if d.get("d") in zero_init:
+                        zs.add(d["d"])
+            tgt = None
+            if n["k"] == "UnaryOperator" and n["op"] in ("++", "--"):
+                tgt = n["ch"][0]
+            elif n["k"] == "CompoundAssignOperator" or (n["k"] == "BinaryOperator" and n["op"] == "="):
+                tgt = n["ch"][0]
+            if tgt is not None:
+                td = f.nodes[f.strip(tgt)].get("d")
+                if td in zs and not (n["k"] == "BinaryOperator" and f.const_value(n["ch"][1]) == 0):
+                    zs.discard(td)
+                if td == fd:
+                    v = f.const_value(n["ch"][1]) if n["k"] == "BinaryOperator" else None
+                    if v is None or v:
+                        sticky = True
+            lo = lossy(x, zs)
+            if lo and lost is None:
+                lost = (x, lo)
+            if x in sink_set:
+                reached.add(x)
+                if lost is not None and not sticky and x not in bad:
+                    bad[x] = lost
+        for (s_, kind, payload) in dataflow.successors(f, blocks[bid]):
+            if kind in ("true", "false") and payload is not None:
+                c = f.nodes[f.strip(payload)]
+                # shift >= K / shift != 0 with a literally-zero shift: only the false edge
+                if c["k"] == "BinaryOperator" and c["op"] in (">=", ">", "!=") and f.nodes[f.strip_casts(c["ch"][0])].get("d") in zs and kind == "true":
+                    continue
+            work.append((s_, lost, sticky, frozenset(zs)))
+    if steps >= 200000:
+        r.broke("realToString: the abstract paths were not exhausted")
+        return r
+    # one obligation per lossy operation (the first one on a path is the one blamed)
+    ops = {}
+    for x in f.walk():
+        lo = lossy(x, set())
+        if lo:
+            ops[x] = lo
+    blamed = {}
+    for c, (x, lo) in bad.items():
+        blamed.setdefault(x, []).append(c)
+    if not reached:
+        r.broke("realToString: no formatter call is reachable in the CFG")
+    for x, lo in sorted(ops.items()):
+        r.ob(f.q, lo, x not in blamed, "every path from this operation to a formatter has assigned `round_up`" if x not in blamed else
+             "a path from this operation reaches `%s` with `round_up` never assigned: what was dropped cannot influence the rounding (25.007 at %%.1g is rounded as the exact tie 25 and prints 2e+01)" % f.text(sorted(blamed[x], key=lambda c_: ("Default" not in f.text(c_), c_))[0])[:40],
+             f.loc(x))
+    return r
+
+
+def rule_round_lower(ctx, m):
+    """ROUND-lower: the formatters cut the digit string at a rounding position and throw the digits below it away (StepBack).
+    The helper that decides the rounding looks only at the digit at that position, at its neighbour's parity and at the flag it is
+    given; the flag therefore has to cover the digits below the position too.  At every call of roundStringNumber the flag argument is
+    a value whose definitions include a loop that reads the digit string (compares storage units with the zero digit) -- or the
+    position is provably the first digit."""
+    r = Rule("ROUND-lower", "the flag handed to the rounding helper covers the digits below the rounding position", floor=2)
+    for q in ("Qentem::Digit::formatStringNumberFixed", "Qentem::Digit::formatStringNumberDefault"):
+        fs = [f for f in m.fns(q, required=False) if not f.inst and f.cfg]
+        if not fs:
+            r.broke("%s not found" % q)
+            continue
+        f = fs[0]
+        for c in astq.calls(f, "roundStringNumber"):
+            args = f.call_args(c)
+            if len(args) < 4:
+                continue
+            ctx.note_fn(f)
+            flag = args[3]
+            # locals in the flag expression and their definitions
+            covered = False
+            decls = set(f.nodes[y].get("d") for y in f.walk(flag) if f.nodes[y]["k"] == "DeclRefExpr" and f.nodes[y].get("dk") == "var")
+            for w in astq.nodes_of(f, ("ForStmt", "WhileStmt", "DoStmt")):
+                if w > c:
+                    continue
+                body = f.nodes[w].get("body", w)
+                for y in f.walk(body):
+                    yn = f.nodes[y]
+                    if yn["k"] == "BinaryOperator" and yn["op"] in ("=", "|=") and f.nodes[f.strip(yn["ch"][0])].get("d") in decls:
+                        rt = f.text(yn["ch"][1])
+                        if "[" in rt and "Zero" in rt:
+                            covered = True
+                    if yn["k"] == "CompoundAssignOperator" and yn["op"] == "|=" and f.nodes[f.strip(yn["ch"][0])].get("d") in decls and "Zero" in f.text(yn["ch"][1]):
+                        covered = True
+            r.ob(f.q, f.text(c)[:70], covered, "the flag includes a scan of the digits below the rounding position" if covered else
+                 "the flag `%s` says nothing about the digits of the string below the rounding position: when the string is longer than precision + 1 digits (the digit-count estimate is one short just above a power of ten) a value above a tie is rounded as an exact tie (116656 at %%.4g gives 1.166e+05)" % f.text(flag)[:40], f.loc(c))
     return r
